@@ -47,19 +47,26 @@ theorem l1d_order_irrelevant {lo hi : α} (hlt : lo < hi) (dxEps : α) (nn d : N
       (run lossFn r12 (init lo hi 1 dxEps nn) (ts₂.map tellOp)) :=
   order_indep_tells lossFn r12 hlt dxEps nn d hp hnd hdim hin
 
-/-- C11.d  Learner1D: one batch (`tell_many`, loop or batch path, forced or not; valid = both end points among
-the results) equals telling one by one. -/
+/-- C11.d  Learner1D: one batch (`tell_many`, loop or batch path, forced or not) equals telling one by one —
+whichever points of the domain the batch contains.  Before the repair `fix: Learner1D.tell_many batch path
+shrank the x-scale to the range of the points` this needed validity of the batch in the old sense (both end
+points of the domain among the results, hypothesis `hv : ValidOps … [.tellMany ts₂ force]`); that proviso is
+gone.  What is left is `hne`: a FORCED batch is not empty (on a forced empty batch of an empty learner the
+real code raises; the model, which does not mirror the exception, puts its default `0` into the x-box —
+kernel-checked example at the end of `Lemmas/OrderIndep.lean`). -/
 theorem l1d_batch_eq_single {lo hi : α} (hlt : lo < hi) (dxEps : α) (nn d : Nat)
     {ts₁ ts₂ : List (α × List α)} (force : Bool) (hp : ts₁.Perm ts₂) (hnd : (ts₁.map Prod.fst).Nodup)
     (hdim : ∀ kv ∈ ts₁, kv.2.length = d) (hin : ∀ kv ∈ ts₁, lo ≤ kv.1 ∧ kv.1 ≤ hi)
-    (hv : ValidOps lossFn r12 (init lo hi 1 dxEps nn) [.tellMany ts₂ force]) :
+    (hne : force = true → ts₂ ≠ []) :
     Agree lossFn r12 (run lossFn r12 (init lo hi 1 dxEps nn) (ts₁.map tellOp))
       (run lossFn r12 (init lo hi 1 dxEps nn) [.tellMany ts₂ force]) :=
-  tells_vs_tellMany lossFn r12 hlt dxEps nn d force hp hnd hdim hin hv
+  tells_vs_tellMany lossFn r12 hlt dxEps nn d force hp hnd hdim hin hne
 
 /-- C11.e  Learner1D, the general form, also WHILE OTHER POINTS ARE PENDING: any two valid histories (tells,
-batched tells, pending marks, discards, asks) after which the learners hold the same data and the same pending
-set agree in every observable — the state is a function of (data, pending). -/
+batched tells, pending marks, discards, asks; valid = all points inside the bounds and no empty batch — since the
+repair `fix: Learner1D.tell_many batch path shrank the x-scale to the range of the points` `ValidOps` has no
+end-point proviso any more, so a batch may contain any points of the domain) after which the learners hold the
+same data and the same pending set agree in every observable — the state is a function of (data, pending). -/
 theorem l1d_state_is_function_of_content {lo hi : α} (hlt : lo < hi) (dxEps : α) (nn d : Nat)
     (ops₁ ops₂ : List (Op α))
     (hv₁ : ValidOps lossFn r12 (init lo hi 1 dxEps nn) ops₁) (hv₂ : ValidOps lossFn r12 (init lo hi 1 dxEps nn) ops₂)
